@@ -139,6 +139,16 @@ def solve_task(task):
             return {'idx': idx, 'status': 'refuted', 'backend': 'z3-mbqi', 'time': total, 'model': model, 'tried': tried}
     if r == 'sat':
         return {'idx': idx, 'status': 'refuted', 'backend': 'cvc5', 'time': total, 'model': None, 'tried': tried}
+    if len(task) > 6 and task[6]:
+        # the same obligation with the pow2 axioms dropped (pow2 uninterpreted): a model is only a candidate
+        try:
+            r3, dt3, model, why = _check_once(task[6], 'z3-default', timeout_ms)
+        except z3.Z3Exception:
+            r3, dt3, model = 'unknown', 0.0, None
+        total += dt3
+        tried.append(('z3-default/no-pow2-axioms', r3, round(dt3, 3)))
+        if r3 == 'sat':
+            return {'idx': idx, 'status': 'refuted-candidate', 'backend': 'z3-default', 'time': total, 'model': model, 'tried': tried}
     # a quantified problem on which e-matching saturates without contradiction is a *candidate* refutation
     for cfg, rr, _ in tried:
         if rr == 'sat':
@@ -175,11 +185,13 @@ def discharge(obligations, timeout_s=10, pool=None):
         txt = None
         extra = ()
         smt2 = to_smt2(ob.pc, ob.goal)
+        plain = None
         if 'pow2' in smt2:
+            plain = smt2
             smt2 = to_smt2(ob.pc, ob.goal, axioms)
         hq = 'forall' in smt2 or 'exists' in smt2
         to = int((getattr(ob, 'timeout', None) or timeout_s) * 1000)
-        tasks.append((i, smt2, hq, uses_strings(smt2), to, getattr(ob, 'expect_fail', False)))
+        tasks.append((i, smt2, hq, uses_strings(smt2), to, getattr(ob, 'expect_fail', False), plain))
     if not tasks:
         return []
     own = pool is None
